@@ -3,6 +3,8 @@ import UsualProofs.C04.RoundTrip
 import UsualProofs.C04.RoundTripB
 import UsualProofs.C04.SubMatch
 import UsualProofs.C04.CMatchFrag
+import UsualProofs.C04.CMatchLink
+import UsualProofs.C04.CMatchLinkG
 /-! # Property C04 — internal regex: POSIX leftmost-longest matching
 
 Level of this property: **exploration with a proved oracle**.  The theorems below are about the
@@ -196,44 +198,53 @@ example : wfB (.cat .bol (.cat (.rep (.group (.rep (.chr 66) 0 none)) 2 none) (.
 publish_gm`).  It is compared with the C code line by line in the correspondence run (the whole
 `pmatch` array of every execution, internal projection of the `y` ops). -/
 
-/-- On parenthesis-free patterns (op lists of simple atoms with counts and anchors, alternation
-at the top level) the matcher model is leftmost-longest with respect to the declarative reading
-`CM.OpsMatch` of its op lists: unless the model itself ran out of fuel/steps, it returns 0 iff
-some alternative matches somewhere, it stops at the leftmost such start, and in strict mode
-(`pmatch` wanted) `last_endpos` is the longest end from there; it returns REG_NOMATCH iff nothing
-matches at any start.  Proved by simultaneous induction over `do_match / scan_next` and its
-back-off loop, the OR-list loop of `match_group`, and the start-position loop of `regexec`.
+/-- **The matcher model equals the reference on every pattern without a repeated group**
+(`CM.fragG 2 r`: the parser's tree shape with simple atoms `c . [..]` with or without counts
+`* + ? {m,n}`, anchors, concatenation, alternation, and plain groups `( … )` nested arbitrarily —
+only a *group* followed by a count is excluded).  `compileOps` turns such a tree into well-numbered
+op lists with `r.groups` groups, and unless the model itself ran out of fuel/steps:
+`usual_regexec`'s return code is 0 exactly when the reference finds a match (REG_NOMATCH otherwise),
+and when `pmatch` is wanted (`nmatch > 0`, no REG_NOSUB; any `nmatch`, so the tie-resolution loop of
+`got_full_match` is included) `pmatch[0]` is the reference's leftmost-longest match.
 
-Full statement (not proved yet):
+Proof: simultaneous induction on the fuel over `do_match`, `scan_next` and its back-off loop,
+`match_group` with its OR-list loop (frames pushed and popped), `match_gend` continuing with the
+parent's AND-list; the frame chain is abstracted to the continuation op list; an invariant for
+`pmatch[0]` through `got_full_match / publish_gm / fill_history`; the greedy run length of an atom
+vs. the iteration of one-byte matches; structural correctness of the op compiler incl. group
+numbering.
 
-  theorem cmatch_refines_llmatch (r : Re) (e : Env) (nosub : Bool) (nmatch : Nat) :
-      CM.compileOps r = some (alts, nsub) → Good (CM.cExec alts nsub nosub e nmatch budget fuel).rc →
-      (CM.cExec …).rc = (if (llmatch e r).isSome then 0 else REG_NOMATCH) ∧
-      (¬nosub → nmatch > 0 → (CM.cExec …).pm.head? = (llmatch e r).map (fun (i,j) => (i,j)))
+Full statement (not proved yet): the same for every tree the parser produces, i.e. also
 
-Missing: (a) the link `OpsMatch (compile r) ↔ Matches e r` for the fragment (greedy run length of
-an atom vs. `Iter` of one-byte matches; fuel adequacy of `compileOps`) and `pm[0] = (start,
-last_endpos)` through `publish_gm`; (b) groups: `match_group / match_gend` re-entry, the `minok`
-rule and zero-length pruning against `Iter.drop`. -/
-theorem cmatch_ops_leftmost_longest_partial (alts : List (List CM.COp))
-    (hsimple : ∀ a, a ∈ alts → ∀ op, op ∈ a → CM.Simple op = true) (nosub : Bool) (e : Env)
-    (nmatch budget fuel : Nat)
-    (hg : (CM.cExec alts 0 nosub e nmatch budget fuel).rc ≠ CM.OUT_OF_BUDGET ∧
-          (CM.cExec alts 0 nosub e nmatch budget fuel).rc ≠ CM.OUT_OF_FUEL) :
-    ((CM.cExec alts 0 nosub e nmatch budget fuel).rc = 0 ∧
-      CM.OpsLL e alts (!nosub && decide (nmatch > 0)) (CM.cExec alts 0 nosub e nmatch budget fuel).rc
-        (CM.cExec alts 0 nosub e nmatch budget fuel).start (CM.cExec alts 0 nosub e nmatch budget fuel).last) ∨
-    ((CM.cExec alts 0 nosub e nmatch budget fuel).rc = CM.NOMATCH ∧
-      ∀ i, i ≤ e.s.size → ∀ j, ¬ CM.AltsMatch e alts i j) :=
-  CM.cExec_ops_spec alts hsimple nosub e nmatch budget fuel hg
+  rep (group body) m n        -- `( … )*`, `( … ){m,n}`
 
-/-- `a|ab*` on "xabb": the model stops at start 1 with `last_endpos` = 4 and reports `(1,4)` -/
+Missing: `match_gend` re-entry into `match_group` for the next iteration, the `minok` rule and the
+zero-length pruning (`gm->count > 0 && zero-length` is cut) against "zero-length iterations can be
+dropped" (`Iter.drop`), and the no-match branch of `match_group` for `mincnt = 0`. -/
+theorem cmatch_refines_llmatch_partial (r : Re) (hr : CM.fragG 2 r = true) (e : Env)
+    (hsz : e.s.size < 0x7FFFFFFF) (nosub : Bool) (nmatch budget fuel : Nat) :
+    ∃ alts, CM.compileOps r = some (alts, r.groups) ∧
+      ((CM.cExec alts r.groups nosub e nmatch budget fuel).rc ≠ CM.OUT_OF_BUDGET ∧
+       (CM.cExec alts r.groups nosub e nmatch budget fuel).rc ≠ CM.OUT_OF_FUEL →
+        (CM.cExec alts r.groups nosub e nmatch budget fuel).rc =
+          (if (llmatch e r).isSome then 0 else CM.NOMATCH) ∧
+        (nosub = false → nmatch > 0 → ∀ i j, llmatch e r = some (i, j) →
+          (CM.cExec alts r.groups nosub e nmatch budget fuel).pm.head? = some ((i : Int), (j : Int)))) :=
+  CM.cExec_eq_llmatch_fragG r hr e hsz nosub nmatch budget fuel
+
+/-- `(a|ab)(c|bcd)(d|.*)` on "abcd" is in the fragment (three plain groups, alternation inside a
+concatenation); the model reports `(0,4)(0,2)(2,3)(3,4)` and `(0,4)` is `llmatch` -/
 example :
-    let alts : List (List CM.COp) := [[.chr 97 1 1], [.chr 97 1 1, .chr 98 0 CM.MAXC]]
-    let res := CM.cExec alts 0 false { s := #[120, 97, 98, 98] } 1 1000 100
-    (∀ a, a ∈ alts → ∀ op, op ∈ a → CM.Simple op = true) ∧
-    res.rc = 0 ∧ res.start = 1 ∧ res.last = some 4 ∧ res.pm = [(1, 4)] := by
-  refine ⟨by decide, by decide +kernel, by decide +kernel, by decide +kernel, by decide +kernel⟩
+    let r : Re := .cat (.group (.alt (.chr 97) (.cat (.chr 97) (.chr 98))))
+      (.cat (.group (.alt (.chr 99) (.cat (.chr 98) (.cat (.chr 99) (.chr 100)))))
+        (.group (.alt (.chr 100) (.rep .any 0 none))))
+    let e : Env := { s := #[97, 98, 99, 100] }
+    CM.fragG 2 r = true ∧ llmatch e r = some (0, 4) ∧
+    (match CM.compileOps r with
+      | some (alts, n) => decide (n = 3 ∧ (CM.cExec alts n false e 4 5000 1000).rc = 0 ∧
+          (CM.cExec alts n false e 4 5000 1000).pm = [(0, 4), (0, 2), (2, 3), (3, 4)])
+      | none => false) = true := by
+  refine ⟨by decide, by decide, by decide +kernel⟩
 
 /-- The repaired `match_gend` (fix F25) is needed: with a minimum count, an empty iteration may
 have to be followed by a non-empty one.  `(a|^){2}` on "a" matches `[0,1)` — the unchanged C
